@@ -264,7 +264,8 @@ ToCompact(T, f) ==
 (* compact_fc_to_full_fc: zero array, rows p2s filled, then distribute_fc2   *)
 (* with identity rotations: row todo += row map_atoms[todo] read through the *)
 (* permutation map_syms[todo]; rows that map to themselves are skipped       *)
-IpOf(T, atom) == (CHOOSE ip \in 1..T.np : T.p2s[ip] = atom) - 1
+(* (0 when the atom is no primitive atom: only reachable with foreign tables, SymProcess.tla) *)
+IpOf(T, atom) == IF \E ip \in 1..T.np : T.p2s[ip] = atom THEN (CHOOSE ip \in 1..T.np : T.p2s[ip] = atom) - 1 ELSE 0
 Expand(T, c) ==
   Arr(c.den,
       [m \in 1..Size(T, T.ns) |->
